@@ -29,10 +29,10 @@ fn no_marker_at(data: &[u8], i: usize) -> bool {
     !is_storage_header_pattern(&data[i..i + 4]) && !is_serial_header_pattern(&data[i..i + 4])
 }
 
-/// L1 accept: buffer = one well-formed message of the given shape + `tail` arbitrary bytes (optionally starting with
-/// the next message's marker); neither marker at any other offset (all 4-byte windows, also those straddling the
+/// L1 accept: buffer = one well-formed message of the given shape + `tail` arbitrary bytes (optionally containing the
+/// next message's marker after `gap` garbage bytes); neither marker at any other offset (all 4-byte windows, also those straddling the
 /// message end). The parser returns exactly this message: length, index, every header field, payload.
-fn accept<const N: usize>(storage: bool, flags: u8, plen: usize, tail: usize, next_is_msg: bool) {
+fn accept<const N: usize>(storage: bool, flags: u8, plen: usize, tail: usize, next_is_msg: bool, gap: usize) {
     let mut data: [u8; N] = kani::any();
     let free: u8 = kani::any(); // endian bit + version bits are free
     let htyp = (free & 0xe2) | flags;
@@ -44,13 +44,14 @@ fn accept<const N: usize>(storage: bool, flags: u8, plen: usize, tail: usize, ne
     data[sh] = htyp;
     data[sh + 2] = ((hdr + plen) >> 8) as u8;
     data[sh + 3] = ((hdr + plen) & 0xff) as u8;
+    // the next message's marker follows after `gap` garbage bytes (gap = 0: directly)
     if next_is_msg {
-        assert!(tail >= 4);
-        set_marker(&mut data, mlen, storage);
+        assert!(tail >= gap + 4);
+        set_marker(&mut data, mlen + gap, storage);
     }
     let mut i = 1;
     while i + 4 <= N {
-        if !(next_is_msg && i == mlen) {
+        if !(next_is_msg && i == mlen + gap) {
             kani::assume(no_marker_at(&data, i));
         }
         i += 1;
@@ -117,171 +118,203 @@ fn accept<const N: usize>(storage: bool, flags: u8, plen: usize, tail: usize, ne
 }
 
 macro_rules! accept_h {
-    ($name:ident, $n:expr, $storage:expr, $flags:expr, $plen:expr, $tail:expr, $next:expr) => {
+    ($name:ident, $n:expr, $storage:expr, $flags:expr, $plen:expr, $tail:expr, $next:expr, $gap:expr) => {
         #[kani::proof]
         #[kani::unwind(64)]
         #[kani::stub(alloc::fmt::format, fmt_stub)]
         fn $name() {
-            accept::<$n>($storage, $flags, $plen, $tail, $next);
+            accept::<$n>($storage, $flags, $plen, $tail, $next, $gap);
         }
     };
 }
 // @generated accept shapes (bin/gen_dlt_shapes.py)
 //@ACCEPT@
-accept_h!(c01_acc_st_f00_p0_t0, 20, true, 0, 0, 0, false);
-accept_h!(c01_acc_st_f00_p0_t3, 23, true, 0, 0, 3, false);
-accept_h!(c01_acc_st_f00_p0_t5, 25, true, 0, 0, 5, false);
-accept_h!(c01_acc_st_f00_p0_t5n, 25, true, 0, 0, 5, true);
-accept_h!(c01_acc_st_f00_p0_t8, 28, true, 0, 0, 8, false);
-accept_h!(c01_acc_st_f00_p0_t8n, 28, true, 0, 0, 8, true);
-accept_h!(c01_acc_st_f00_p1_t0, 21, true, 0, 1, 0, false);
-accept_h!(c01_acc_st_f00_p1_t3, 24, true, 0, 1, 3, false);
-accept_h!(c01_acc_st_f00_p1_t5, 26, true, 0, 1, 5, false);
-accept_h!(c01_acc_st_f00_p1_t5n, 26, true, 0, 1, 5, true);
-accept_h!(c01_acc_st_f00_p1_t8, 29, true, 0, 1, 8, false);
-accept_h!(c01_acc_st_f00_p1_t8n, 29, true, 0, 1, 8, true);
-accept_h!(c01_acc_st_f00_p2_t0, 22, true, 0, 2, 0, false);
-accept_h!(c01_acc_st_f00_p2_t3, 25, true, 0, 2, 3, false);
-accept_h!(c01_acc_st_f00_p2_t5, 27, true, 0, 2, 5, false);
-accept_h!(c01_acc_st_f00_p2_t5n, 27, true, 0, 2, 5, true);
-accept_h!(c01_acc_st_f00_p2_t8, 30, true, 0, 2, 8, false);
-accept_h!(c01_acc_st_f00_p2_t8n, 30, true, 0, 2, 8, true);
-accept_h!(c01_acc_st_f00_p5_t0, 25, true, 0, 5, 0, false);
-accept_h!(c01_acc_st_f00_p5_t3, 28, true, 0, 5, 3, false);
-accept_h!(c01_acc_st_f00_p5_t5, 30, true, 0, 5, 5, false);
-accept_h!(c01_acc_st_f00_p5_t5n, 30, true, 0, 5, 5, true);
-accept_h!(c01_acc_st_f00_p5_t8, 33, true, 0, 5, 8, false);
-accept_h!(c01_acc_st_f00_p5_t8n, 33, true, 0, 5, 8, true);
-accept_h!(c01_acc_st_f01_p0_t0, 30, true, 1, 0, 0, false);
-accept_h!(c01_acc_st_f01_p2_t5n, 37, true, 1, 2, 5, true);
-accept_h!(c01_acc_st_f04_p0_t0, 24, true, 4, 0, 0, false);
-accept_h!(c01_acc_st_f04_p2_t5n, 31, true, 4, 2, 5, true);
-accept_h!(c01_acc_st_f05_p0_t0, 34, true, 5, 0, 0, false);
-accept_h!(c01_acc_st_f05_p2_t5n, 41, true, 5, 2, 5, true);
-accept_h!(c01_acc_st_f08_p0_t0, 24, true, 8, 0, 0, false);
-accept_h!(c01_acc_st_f08_p2_t5n, 31, true, 8, 2, 5, true);
-accept_h!(c01_acc_st_f09_p0_t0, 34, true, 9, 0, 0, false);
-accept_h!(c01_acc_st_f09_p2_t5n, 41, true, 9, 2, 5, true);
-accept_h!(c01_acc_st_f0c_p0_t0, 28, true, 12, 0, 0, false);
-accept_h!(c01_acc_st_f0c_p1_t3, 32, true, 12, 1, 3, false);
-accept_h!(c01_acc_st_f0c_p2_t5n, 35, true, 12, 2, 5, true);
-accept_h!(c01_acc_st_f0d_p0_t0, 38, true, 13, 0, 0, false);
-accept_h!(c01_acc_st_f0d_p2_t5n, 45, true, 13, 2, 5, true);
-accept_h!(c01_acc_st_f10_p0_t0, 24, true, 16, 0, 0, false);
-accept_h!(c01_acc_st_f10_p2_t5n, 31, true, 16, 2, 5, true);
-accept_h!(c01_acc_st_f11_p0_t0, 34, true, 17, 0, 0, false);
-accept_h!(c01_acc_st_f11_p2_t5n, 41, true, 17, 2, 5, true);
-accept_h!(c01_acc_st_f11_p5_t8n, 47, true, 17, 5, 8, true);
-accept_h!(c01_acc_st_f14_p0_t0, 28, true, 20, 0, 0, false);
-accept_h!(c01_acc_st_f14_p2_t5n, 35, true, 20, 2, 5, true);
-accept_h!(c01_acc_st_f15_p0_t0, 38, true, 21, 0, 0, false);
-accept_h!(c01_acc_st_f15_p2_t5n, 45, true, 21, 2, 5, true);
-accept_h!(c01_acc_st_f18_p0_t0, 28, true, 24, 0, 0, false);
-accept_h!(c01_acc_st_f18_p2_t5n, 35, true, 24, 2, 5, true);
-accept_h!(c01_acc_st_f19_p0_t0, 38, true, 25, 0, 0, false);
-accept_h!(c01_acc_st_f19_p2_t5n, 45, true, 25, 2, 5, true);
-accept_h!(c01_acc_st_f1c_p0_t0, 32, true, 28, 0, 0, false);
-accept_h!(c01_acc_st_f1c_p2_t5n, 39, true, 28, 2, 5, true);
-accept_h!(c01_acc_st_f1d_p0_t0, 42, true, 29, 0, 0, false);
-accept_h!(c01_acc_st_f1d_p0_t3, 45, true, 29, 0, 3, false);
-accept_h!(c01_acc_st_f1d_p0_t5, 47, true, 29, 0, 5, false);
-accept_h!(c01_acc_st_f1d_p0_t5n, 47, true, 29, 0, 5, true);
-accept_h!(c01_acc_st_f1d_p0_t8, 50, true, 29, 0, 8, false);
-accept_h!(c01_acc_st_f1d_p0_t8n, 50, true, 29, 0, 8, true);
-accept_h!(c01_acc_st_f1d_p1_t0, 43, true, 29, 1, 0, false);
-accept_h!(c01_acc_st_f1d_p1_t3, 46, true, 29, 1, 3, false);
-accept_h!(c01_acc_st_f1d_p1_t5, 48, true, 29, 1, 5, false);
-accept_h!(c01_acc_st_f1d_p1_t5n, 48, true, 29, 1, 5, true);
-accept_h!(c01_acc_st_f1d_p1_t8, 51, true, 29, 1, 8, false);
-accept_h!(c01_acc_st_f1d_p1_t8n, 51, true, 29, 1, 8, true);
-accept_h!(c01_acc_st_f1d_p2_t0, 44, true, 29, 2, 0, false);
-accept_h!(c01_acc_st_f1d_p2_t3, 47, true, 29, 2, 3, false);
-accept_h!(c01_acc_st_f1d_p2_t5, 49, true, 29, 2, 5, false);
-accept_h!(c01_acc_st_f1d_p2_t5n, 49, true, 29, 2, 5, true);
-accept_h!(c01_acc_st_f1d_p2_t8, 52, true, 29, 2, 8, false);
-accept_h!(c01_acc_st_f1d_p2_t8n, 52, true, 29, 2, 8, true);
-accept_h!(c01_acc_st_f1d_p5_t0, 47, true, 29, 5, 0, false);
-accept_h!(c01_acc_st_f1d_p5_t3, 50, true, 29, 5, 3, false);
-accept_h!(c01_acc_st_f1d_p5_t5, 52, true, 29, 5, 5, false);
-accept_h!(c01_acc_st_f1d_p5_t5n, 52, true, 29, 5, 5, true);
-accept_h!(c01_acc_st_f1d_p5_t8, 55, true, 29, 5, 8, false);
-accept_h!(c01_acc_st_f1d_p5_t8n, 55, true, 29, 5, 8, true);
-accept_h!(c01_acc_se_f00_p0_t0, 8, false, 0, 0, 0, false);
-accept_h!(c01_acc_se_f00_p0_t3, 11, false, 0, 0, 3, false);
-accept_h!(c01_acc_se_f00_p0_t5, 13, false, 0, 0, 5, false);
-accept_h!(c01_acc_se_f00_p0_t5n, 13, false, 0, 0, 5, true);
-accept_h!(c01_acc_se_f00_p0_t8, 16, false, 0, 0, 8, false);
-accept_h!(c01_acc_se_f00_p0_t8n, 16, false, 0, 0, 8, true);
-accept_h!(c01_acc_se_f00_p1_t0, 9, false, 0, 1, 0, false);
-accept_h!(c01_acc_se_f00_p1_t3, 12, false, 0, 1, 3, false);
-accept_h!(c01_acc_se_f00_p1_t5, 14, false, 0, 1, 5, false);
-accept_h!(c01_acc_se_f00_p1_t5n, 14, false, 0, 1, 5, true);
-accept_h!(c01_acc_se_f00_p1_t8, 17, false, 0, 1, 8, false);
-accept_h!(c01_acc_se_f00_p1_t8n, 17, false, 0, 1, 8, true);
-accept_h!(c01_acc_se_f00_p2_t0, 10, false, 0, 2, 0, false);
-accept_h!(c01_acc_se_f00_p2_t3, 13, false, 0, 2, 3, false);
-accept_h!(c01_acc_se_f00_p2_t5, 15, false, 0, 2, 5, false);
-accept_h!(c01_acc_se_f00_p2_t5n, 15, false, 0, 2, 5, true);
-accept_h!(c01_acc_se_f00_p2_t8, 18, false, 0, 2, 8, false);
-accept_h!(c01_acc_se_f00_p2_t8n, 18, false, 0, 2, 8, true);
-accept_h!(c01_acc_se_f00_p5_t0, 13, false, 0, 5, 0, false);
-accept_h!(c01_acc_se_f00_p5_t3, 16, false, 0, 5, 3, false);
-accept_h!(c01_acc_se_f00_p5_t5, 18, false, 0, 5, 5, false);
-accept_h!(c01_acc_se_f00_p5_t5n, 18, false, 0, 5, 5, true);
-accept_h!(c01_acc_se_f00_p5_t8, 21, false, 0, 5, 8, false);
-accept_h!(c01_acc_se_f00_p5_t8n, 21, false, 0, 5, 8, true);
-accept_h!(c01_acc_se_f01_p0_t0, 18, false, 1, 0, 0, false);
-accept_h!(c01_acc_se_f01_p2_t5n, 25, false, 1, 2, 5, true);
-accept_h!(c01_acc_se_f04_p0_t0, 12, false, 4, 0, 0, false);
-accept_h!(c01_acc_se_f04_p2_t5n, 19, false, 4, 2, 5, true);
-accept_h!(c01_acc_se_f05_p0_t0, 22, false, 5, 0, 0, false);
-accept_h!(c01_acc_se_f05_p2_t5n, 29, false, 5, 2, 5, true);
-accept_h!(c01_acc_se_f08_p0_t0, 12, false, 8, 0, 0, false);
-accept_h!(c01_acc_se_f08_p2_t5n, 19, false, 8, 2, 5, true);
-accept_h!(c01_acc_se_f09_p0_t0, 22, false, 9, 0, 0, false);
-accept_h!(c01_acc_se_f09_p2_t5n, 29, false, 9, 2, 5, true);
-accept_h!(c01_acc_se_f0c_p0_t0, 16, false, 12, 0, 0, false);
-accept_h!(c01_acc_se_f0c_p2_t5n, 23, false, 12, 2, 5, true);
-accept_h!(c01_acc_se_f0d_p0_t0, 26, false, 13, 0, 0, false);
-accept_h!(c01_acc_se_f0d_p2_t5n, 33, false, 13, 2, 5, true);
-accept_h!(c01_acc_se_f10_p0_t0, 12, false, 16, 0, 0, false);
-accept_h!(c01_acc_se_f10_p2_t5n, 19, false, 16, 2, 5, true);
-accept_h!(c01_acc_se_f11_p0_t0, 22, false, 17, 0, 0, false);
-accept_h!(c01_acc_se_f11_p2_t5n, 29, false, 17, 2, 5, true);
-accept_h!(c01_acc_se_f14_p0_t0, 16, false, 20, 0, 0, false);
-accept_h!(c01_acc_se_f14_p2_t5n, 23, false, 20, 2, 5, true);
-accept_h!(c01_acc_se_f15_p0_t0, 26, false, 21, 0, 0, false);
-accept_h!(c01_acc_se_f15_p2_t5n, 33, false, 21, 2, 5, true);
-accept_h!(c01_acc_se_f18_p0_t0, 16, false, 24, 0, 0, false);
-accept_h!(c01_acc_se_f18_p2_t5n, 23, false, 24, 2, 5, true);
-accept_h!(c01_acc_se_f19_p0_t0, 26, false, 25, 0, 0, false);
-accept_h!(c01_acc_se_f19_p2_t5n, 33, false, 25, 2, 5, true);
-accept_h!(c01_acc_se_f1c_p0_t0, 20, false, 28, 0, 0, false);
-accept_h!(c01_acc_se_f1c_p2_t5n, 27, false, 28, 2, 5, true);
-accept_h!(c01_acc_se_f1d_p0_t0, 30, false, 29, 0, 0, false);
-accept_h!(c01_acc_se_f1d_p0_t3, 33, false, 29, 0, 3, false);
-accept_h!(c01_acc_se_f1d_p0_t5, 35, false, 29, 0, 5, false);
-accept_h!(c01_acc_se_f1d_p0_t5n, 35, false, 29, 0, 5, true);
-accept_h!(c01_acc_se_f1d_p0_t8, 38, false, 29, 0, 8, false);
-accept_h!(c01_acc_se_f1d_p0_t8n, 38, false, 29, 0, 8, true);
-accept_h!(c01_acc_se_f1d_p1_t0, 31, false, 29, 1, 0, false);
-accept_h!(c01_acc_se_f1d_p1_t3, 34, false, 29, 1, 3, false);
-accept_h!(c01_acc_se_f1d_p1_t5, 36, false, 29, 1, 5, false);
-accept_h!(c01_acc_se_f1d_p1_t5n, 36, false, 29, 1, 5, true);
-accept_h!(c01_acc_se_f1d_p1_t8, 39, false, 29, 1, 8, false);
-accept_h!(c01_acc_se_f1d_p1_t8n, 39, false, 29, 1, 8, true);
-accept_h!(c01_acc_se_f1d_p2_t0, 32, false, 29, 2, 0, false);
-accept_h!(c01_acc_se_f1d_p2_t3, 35, false, 29, 2, 3, false);
-accept_h!(c01_acc_se_f1d_p2_t5, 37, false, 29, 2, 5, false);
-accept_h!(c01_acc_se_f1d_p2_t5n, 37, false, 29, 2, 5, true);
-accept_h!(c01_acc_se_f1d_p2_t8, 40, false, 29, 2, 8, false);
-accept_h!(c01_acc_se_f1d_p2_t8n, 40, false, 29, 2, 8, true);
-accept_h!(c01_acc_se_f1d_p5_t0, 35, false, 29, 5, 0, false);
-accept_h!(c01_acc_se_f1d_p5_t3, 38, false, 29, 5, 3, false);
-accept_h!(c01_acc_se_f1d_p5_t5, 40, false, 29, 5, 5, false);
-accept_h!(c01_acc_se_f1d_p5_t5n, 40, false, 29, 5, 5, true);
-accept_h!(c01_acc_se_f1d_p5_t8, 43, false, 29, 5, 8, false);
-accept_h!(c01_acc_se_f1d_p5_t8n, 43, false, 29, 5, 8, true);
+accept_h!(c01_acc_st_f00_p0_t0, 20, true, 0, 0, 0, false, 0);
+accept_h!(c01_acc_st_f00_p0_t3, 23, true, 0, 0, 3, false, 0);
+accept_h!(c01_acc_st_f00_p0_t5, 25, true, 0, 0, 5, false, 0);
+accept_h!(c01_acc_st_f00_p0_t5n, 25, true, 0, 0, 5, true, 0);
+accept_h!(c01_acc_st_f00_p0_t8, 28, true, 0, 0, 8, false, 0);
+accept_h!(c01_acc_st_f00_p0_t8n, 28, true, 0, 0, 8, true, 0);
+accept_h!(c01_acc_st_f00_p1_t0, 21, true, 0, 1, 0, false, 0);
+accept_h!(c01_acc_st_f00_p1_t3, 24, true, 0, 1, 3, false, 0);
+accept_h!(c01_acc_st_f00_p1_t5, 26, true, 0, 1, 5, false, 0);
+accept_h!(c01_acc_st_f00_p1_t5n, 26, true, 0, 1, 5, true, 0);
+accept_h!(c01_acc_st_f00_p1_t8, 29, true, 0, 1, 8, false, 0);
+accept_h!(c01_acc_st_f00_p1_t8n, 29, true, 0, 1, 8, true, 0);
+accept_h!(c01_acc_st_f00_p2_t0, 22, true, 0, 2, 0, false, 0);
+accept_h!(c01_acc_st_f00_p2_t3, 25, true, 0, 2, 3, false, 0);
+accept_h!(c01_acc_st_f00_p2_t5, 27, true, 0, 2, 5, false, 0);
+accept_h!(c01_acc_st_f00_p2_t5n, 27, true, 0, 2, 5, true, 0);
+accept_h!(c01_acc_st_f00_p2_t8, 30, true, 0, 2, 8, false, 0);
+accept_h!(c01_acc_st_f00_p2_t8n, 30, true, 0, 2, 8, true, 0);
+accept_h!(c01_acc_st_f00_p5_t0, 25, true, 0, 5, 0, false, 0);
+accept_h!(c01_acc_st_f00_p5_t3, 28, true, 0, 5, 3, false, 0);
+accept_h!(c01_acc_st_f00_p5_t5, 30, true, 0, 5, 5, false, 0);
+accept_h!(c01_acc_st_f00_p5_t5n, 30, true, 0, 5, 5, true, 0);
+accept_h!(c01_acc_st_f00_p5_t8, 33, true, 0, 5, 8, false, 0);
+accept_h!(c01_acc_st_f00_p5_t8n, 33, true, 0, 5, 8, true, 0);
+accept_h!(c01_acc_st_f01_p0_t0, 30, true, 1, 0, 0, false, 0);
+accept_h!(c01_acc_st_f01_p2_t5n, 37, true, 1, 2, 5, true, 0);
+accept_h!(c01_acc_st_f04_p0_t0, 24, true, 4, 0, 0, false, 0);
+accept_h!(c01_acc_st_f04_p2_t5n, 31, true, 4, 2, 5, true, 0);
+accept_h!(c01_acc_st_f05_p0_t0, 34, true, 5, 0, 0, false, 0);
+accept_h!(c01_acc_st_f05_p2_t5n, 41, true, 5, 2, 5, true, 0);
+accept_h!(c01_acc_st_f08_p0_t0, 24, true, 8, 0, 0, false, 0);
+accept_h!(c01_acc_st_f08_p2_t5n, 31, true, 8, 2, 5, true, 0);
+accept_h!(c01_acc_st_f09_p0_t0, 34, true, 9, 0, 0, false, 0);
+accept_h!(c01_acc_st_f09_p2_t5n, 41, true, 9, 2, 5, true, 0);
+accept_h!(c01_acc_st_f0c_p0_t0, 28, true, 12, 0, 0, false, 0);
+accept_h!(c01_acc_st_f0c_p1_t3, 32, true, 12, 1, 3, false, 0);
+accept_h!(c01_acc_st_f0c_p2_t5n, 35, true, 12, 2, 5, true, 0);
+accept_h!(c01_acc_st_f0d_p0_t0, 38, true, 13, 0, 0, false, 0);
+accept_h!(c01_acc_st_f0d_p2_t5n, 45, true, 13, 2, 5, true, 0);
+accept_h!(c01_acc_st_f10_p0_t0, 24, true, 16, 0, 0, false, 0);
+accept_h!(c01_acc_st_f10_p2_t5n, 31, true, 16, 2, 5, true, 0);
+accept_h!(c01_acc_st_f11_p0_t0, 34, true, 17, 0, 0, false, 0);
+accept_h!(c01_acc_st_f11_p2_t5n, 41, true, 17, 2, 5, true, 0);
+accept_h!(c01_acc_st_f11_p5_t8n, 47, true, 17, 5, 8, true, 0);
+accept_h!(c01_acc_st_f14_p0_t0, 28, true, 20, 0, 0, false, 0);
+accept_h!(c01_acc_st_f14_p2_t5n, 35, true, 20, 2, 5, true, 0);
+accept_h!(c01_acc_st_f15_p0_t0, 38, true, 21, 0, 0, false, 0);
+accept_h!(c01_acc_st_f15_p2_t5n, 45, true, 21, 2, 5, true, 0);
+accept_h!(c01_acc_st_f18_p0_t0, 28, true, 24, 0, 0, false, 0);
+accept_h!(c01_acc_st_f18_p2_t5n, 35, true, 24, 2, 5, true, 0);
+accept_h!(c01_acc_st_f19_p0_t0, 38, true, 25, 0, 0, false, 0);
+accept_h!(c01_acc_st_f19_p2_t5n, 45, true, 25, 2, 5, true, 0);
+accept_h!(c01_acc_st_f1c_p0_t0, 32, true, 28, 0, 0, false, 0);
+accept_h!(c01_acc_st_f1c_p2_t5n, 39, true, 28, 2, 5, true, 0);
+accept_h!(c01_acc_st_f1d_p0_t0, 42, true, 29, 0, 0, false, 0);
+accept_h!(c01_acc_st_f1d_p0_t3, 45, true, 29, 0, 3, false, 0);
+accept_h!(c01_acc_st_f1d_p0_t5, 47, true, 29, 0, 5, false, 0);
+accept_h!(c01_acc_st_f1d_p0_t5n, 47, true, 29, 0, 5, true, 0);
+accept_h!(c01_acc_st_f1d_p0_t8, 50, true, 29, 0, 8, false, 0);
+accept_h!(c01_acc_st_f1d_p0_t8n, 50, true, 29, 0, 8, true, 0);
+accept_h!(c01_acc_st_f1d_p1_t0, 43, true, 29, 1, 0, false, 0);
+accept_h!(c01_acc_st_f1d_p1_t3, 46, true, 29, 1, 3, false, 0);
+accept_h!(c01_acc_st_f1d_p1_t5, 48, true, 29, 1, 5, false, 0);
+accept_h!(c01_acc_st_f1d_p1_t5n, 48, true, 29, 1, 5, true, 0);
+accept_h!(c01_acc_st_f1d_p1_t8, 51, true, 29, 1, 8, false, 0);
+accept_h!(c01_acc_st_f1d_p1_t8n, 51, true, 29, 1, 8, true, 0);
+accept_h!(c01_acc_st_f1d_p2_t0, 44, true, 29, 2, 0, false, 0);
+accept_h!(c01_acc_st_f1d_p2_t3, 47, true, 29, 2, 3, false, 0);
+accept_h!(c01_acc_st_f1d_p2_t5, 49, true, 29, 2, 5, false, 0);
+accept_h!(c01_acc_st_f1d_p2_t5n, 49, true, 29, 2, 5, true, 0);
+accept_h!(c01_acc_st_f1d_p2_t8, 52, true, 29, 2, 8, false, 0);
+accept_h!(c01_acc_st_f1d_p2_t8n, 52, true, 29, 2, 8, true, 0);
+accept_h!(c01_acc_st_f1d_p5_t0, 47, true, 29, 5, 0, false, 0);
+accept_h!(c01_acc_st_f1d_p5_t3, 50, true, 29, 5, 3, false, 0);
+accept_h!(c01_acc_st_f1d_p5_t5, 52, true, 29, 5, 5, false, 0);
+accept_h!(c01_acc_st_f1d_p5_t5n, 52, true, 29, 5, 5, true, 0);
+accept_h!(c01_acc_st_f1d_p5_t8, 55, true, 29, 5, 8, false, 0);
+accept_h!(c01_acc_st_f1d_p5_t8n, 55, true, 29, 5, 8, true, 0);
+accept_h!(c01_acc_se_f00_p0_t0, 8, false, 0, 0, 0, false, 0);
+accept_h!(c01_acc_se_f00_p0_t3, 11, false, 0, 0, 3, false, 0);
+accept_h!(c01_acc_se_f00_p0_t5, 13, false, 0, 0, 5, false, 0);
+accept_h!(c01_acc_se_f00_p0_t5n, 13, false, 0, 0, 5, true, 0);
+accept_h!(c01_acc_se_f00_p0_t8, 16, false, 0, 0, 8, false, 0);
+accept_h!(c01_acc_se_f00_p0_t8n, 16, false, 0, 0, 8, true, 0);
+accept_h!(c01_acc_se_f00_p1_t0, 9, false, 0, 1, 0, false, 0);
+accept_h!(c01_acc_se_f00_p1_t3, 12, false, 0, 1, 3, false, 0);
+accept_h!(c01_acc_se_f00_p1_t5, 14, false, 0, 1, 5, false, 0);
+accept_h!(c01_acc_se_f00_p1_t5n, 14, false, 0, 1, 5, true, 0);
+accept_h!(c01_acc_se_f00_p1_t8, 17, false, 0, 1, 8, false, 0);
+accept_h!(c01_acc_se_f00_p1_t8n, 17, false, 0, 1, 8, true, 0);
+accept_h!(c01_acc_se_f00_p2_t0, 10, false, 0, 2, 0, false, 0);
+accept_h!(c01_acc_se_f00_p2_t3, 13, false, 0, 2, 3, false, 0);
+accept_h!(c01_acc_se_f00_p2_t5, 15, false, 0, 2, 5, false, 0);
+accept_h!(c01_acc_se_f00_p2_t5n, 15, false, 0, 2, 5, true, 0);
+accept_h!(c01_acc_se_f00_p2_t8, 18, false, 0, 2, 8, false, 0);
+accept_h!(c01_acc_se_f00_p2_t8n, 18, false, 0, 2, 8, true, 0);
+accept_h!(c01_acc_se_f00_p5_t0, 13, false, 0, 5, 0, false, 0);
+accept_h!(c01_acc_se_f00_p5_t3, 16, false, 0, 5, 3, false, 0);
+accept_h!(c01_acc_se_f00_p5_t5, 18, false, 0, 5, 5, false, 0);
+accept_h!(c01_acc_se_f00_p5_t5n, 18, false, 0, 5, 5, true, 0);
+accept_h!(c01_acc_se_f00_p5_t8, 21, false, 0, 5, 8, false, 0);
+accept_h!(c01_acc_se_f00_p5_t8n, 21, false, 0, 5, 8, true, 0);
+accept_h!(c01_acc_se_f01_p0_t0, 18, false, 1, 0, 0, false, 0);
+accept_h!(c01_acc_se_f01_p2_t5n, 25, false, 1, 2, 5, true, 0);
+accept_h!(c01_acc_se_f04_p0_t0, 12, false, 4, 0, 0, false, 0);
+accept_h!(c01_acc_se_f04_p2_t5n, 19, false, 4, 2, 5, true, 0);
+accept_h!(c01_acc_se_f05_p0_t0, 22, false, 5, 0, 0, false, 0);
+accept_h!(c01_acc_se_f05_p2_t5n, 29, false, 5, 2, 5, true, 0);
+accept_h!(c01_acc_se_f08_p0_t0, 12, false, 8, 0, 0, false, 0);
+accept_h!(c01_acc_se_f08_p2_t5n, 19, false, 8, 2, 5, true, 0);
+accept_h!(c01_acc_se_f09_p0_t0, 22, false, 9, 0, 0, false, 0);
+accept_h!(c01_acc_se_f09_p2_t5n, 29, false, 9, 2, 5, true, 0);
+accept_h!(c01_acc_se_f0c_p0_t0, 16, false, 12, 0, 0, false, 0);
+accept_h!(c01_acc_se_f0c_p2_t5n, 23, false, 12, 2, 5, true, 0);
+accept_h!(c01_acc_se_f0d_p0_t0, 26, false, 13, 0, 0, false, 0);
+accept_h!(c01_acc_se_f0d_p2_t5n, 33, false, 13, 2, 5, true, 0);
+accept_h!(c01_acc_se_f10_p0_t0, 12, false, 16, 0, 0, false, 0);
+accept_h!(c01_acc_se_f10_p2_t5n, 19, false, 16, 2, 5, true, 0);
+accept_h!(c01_acc_se_f11_p0_t0, 22, false, 17, 0, 0, false, 0);
+accept_h!(c01_acc_se_f11_p2_t5n, 29, false, 17, 2, 5, true, 0);
+accept_h!(c01_acc_se_f14_p0_t0, 16, false, 20, 0, 0, false, 0);
+accept_h!(c01_acc_se_f14_p2_t5n, 23, false, 20, 2, 5, true, 0);
+accept_h!(c01_acc_se_f15_p0_t0, 26, false, 21, 0, 0, false, 0);
+accept_h!(c01_acc_se_f15_p2_t5n, 33, false, 21, 2, 5, true, 0);
+accept_h!(c01_acc_se_f18_p0_t0, 16, false, 24, 0, 0, false, 0);
+accept_h!(c01_acc_se_f18_p2_t5n, 23, false, 24, 2, 5, true, 0);
+accept_h!(c01_acc_se_f19_p0_t0, 26, false, 25, 0, 0, false, 0);
+accept_h!(c01_acc_se_f19_p2_t5n, 33, false, 25, 2, 5, true, 0);
+accept_h!(c01_acc_se_f1c_p0_t0, 20, false, 28, 0, 0, false, 0);
+accept_h!(c01_acc_se_f1c_p2_t5n, 27, false, 28, 2, 5, true, 0);
+accept_h!(c01_acc_se_f1d_p0_t0, 30, false, 29, 0, 0, false, 0);
+accept_h!(c01_acc_se_f1d_p0_t3, 33, false, 29, 0, 3, false, 0);
+accept_h!(c01_acc_se_f1d_p0_t5, 35, false, 29, 0, 5, false, 0);
+accept_h!(c01_acc_se_f1d_p0_t5n, 35, false, 29, 0, 5, true, 0);
+accept_h!(c01_acc_se_f1d_p0_t8, 38, false, 29, 0, 8, false, 0);
+accept_h!(c01_acc_se_f1d_p0_t8n, 38, false, 29, 0, 8, true, 0);
+accept_h!(c01_acc_se_f1d_p1_t0, 31, false, 29, 1, 0, false, 0);
+accept_h!(c01_acc_se_f1d_p1_t3, 34, false, 29, 1, 3, false, 0);
+accept_h!(c01_acc_se_f1d_p1_t5, 36, false, 29, 1, 5, false, 0);
+accept_h!(c01_acc_se_f1d_p1_t5n, 36, false, 29, 1, 5, true, 0);
+accept_h!(c01_acc_se_f1d_p1_t8, 39, false, 29, 1, 8, false, 0);
+accept_h!(c01_acc_se_f1d_p1_t8n, 39, false, 29, 1, 8, true, 0);
+accept_h!(c01_acc_se_f1d_p2_t0, 32, false, 29, 2, 0, false, 0);
+accept_h!(c01_acc_se_f1d_p2_t3, 35, false, 29, 2, 3, false, 0);
+accept_h!(c01_acc_se_f1d_p2_t5, 37, false, 29, 2, 5, false, 0);
+accept_h!(c01_acc_se_f1d_p2_t5n, 37, false, 29, 2, 5, true, 0);
+accept_h!(c01_acc_se_f1d_p2_t8, 40, false, 29, 2, 8, false, 0);
+accept_h!(c01_acc_se_f1d_p2_t8n, 40, false, 29, 2, 8, true, 0);
+accept_h!(c01_acc_se_f1d_p5_t0, 35, false, 29, 5, 0, false, 0);
+accept_h!(c01_acc_se_f1d_p5_t3, 38, false, 29, 5, 3, false, 0);
+accept_h!(c01_acc_se_f1d_p5_t5, 40, false, 29, 5, 5, false, 0);
+accept_h!(c01_acc_se_f1d_p5_t5n, 40, false, 29, 5, 5, true, 0);
+accept_h!(c01_acc_se_f1d_p5_t8, 43, false, 29, 5, 8, false, 0);
+accept_h!(c01_acc_se_f1d_p5_t8n, 43, false, 29, 5, 8, true, 0);
+accept_h!(c01_acc_st_f00_p0_t5ng1, 25, true, 0, 0, 5, true, 1);
+accept_h!(c01_acc_st_f00_p0_t6ng2, 26, true, 0, 0, 6, true, 2);
+accept_h!(c01_acc_st_f00_p0_t7ng3, 27, true, 0, 0, 7, true, 3);
+accept_h!(c01_acc_st_f00_p0_t8ng4, 28, true, 0, 0, 8, true, 4);
+accept_h!(c01_acc_st_f00_p2_t5ng1, 27, true, 0, 2, 5, true, 1);
+accept_h!(c01_acc_st_f00_p2_t6ng2, 28, true, 0, 2, 6, true, 2);
+accept_h!(c01_acc_st_f00_p2_t7ng3, 29, true, 0, 2, 7, true, 3);
+accept_h!(c01_acc_st_f00_p2_t8ng4, 30, true, 0, 2, 8, true, 4);
+accept_h!(c01_acc_st_f1d_p0_t5ng1, 47, true, 29, 0, 5, true, 1);
+accept_h!(c01_acc_st_f1d_p0_t6ng2, 48, true, 29, 0, 6, true, 2);
+accept_h!(c01_acc_st_f1d_p0_t7ng3, 49, true, 29, 0, 7, true, 3);
+accept_h!(c01_acc_st_f1d_p0_t8ng4, 50, true, 29, 0, 8, true, 4);
+accept_h!(c01_acc_st_f1d_p2_t5ng1, 49, true, 29, 2, 5, true, 1);
+accept_h!(c01_acc_st_f1d_p2_t6ng2, 50, true, 29, 2, 6, true, 2);
+accept_h!(c01_acc_st_f1d_p2_t7ng3, 51, true, 29, 2, 7, true, 3);
+accept_h!(c01_acc_st_f1d_p2_t8ng4, 52, true, 29, 2, 8, true, 4);
+accept_h!(c01_acc_se_f00_p0_t5ng1, 13, false, 0, 0, 5, true, 1);
+accept_h!(c01_acc_se_f00_p0_t6ng2, 14, false, 0, 0, 6, true, 2);
+accept_h!(c01_acc_se_f00_p0_t7ng3, 15, false, 0, 0, 7, true, 3);
+accept_h!(c01_acc_se_f00_p0_t8ng4, 16, false, 0, 0, 8, true, 4);
+accept_h!(c01_acc_se_f00_p2_t5ng1, 15, false, 0, 2, 5, true, 1);
+accept_h!(c01_acc_se_f00_p2_t6ng2, 16, false, 0, 2, 6, true, 2);
+accept_h!(c01_acc_se_f00_p2_t7ng3, 17, false, 0, 2, 7, true, 3);
+accept_h!(c01_acc_se_f00_p2_t8ng4, 18, false, 0, 2, 8, true, 4);
+accept_h!(c01_acc_se_f1d_p0_t5ng1, 35, false, 29, 0, 5, true, 1);
+accept_h!(c01_acc_se_f1d_p0_t6ng2, 36, false, 29, 0, 6, true, 2);
+accept_h!(c01_acc_se_f1d_p0_t7ng3, 37, false, 29, 0, 7, true, 3);
+accept_h!(c01_acc_se_f1d_p0_t8ng4, 38, false, 29, 0, 8, true, 4);
+accept_h!(c01_acc_se_f1d_p2_t5ng1, 37, false, 29, 2, 5, true, 1);
+accept_h!(c01_acc_se_f1d_p2_t6ng2, 38, false, 29, 2, 6, true, 2);
+accept_h!(c01_acc_se_f1d_p2_t7ng3, 39, false, 29, 2, 7, true, 3);
+accept_h!(c01_acc_se_f1d_p2_t8ng4, 40, false, 29, 2, 8, true, 4);
 //@END-ACCEPT@
 
 /// L2 reject: any buffer (symbolic length <= N) that does not start with the framing's marker is refused -
